@@ -18,7 +18,8 @@ pub fn gen_corrupt(seed: u64) -> Plan {
     o.incarnations = (1, 2);
     o.final_drain = false;
     o.p_real = 0.0;
-    o.max_topics = 2;
+    // a third of the donors spread over many topics: one block per topic, so the upper blocks of a file are in use
+    o.max_topics = if rng.chance(0.33) { 7 } else { 2 };
     let mut plan = gen_seq(mix(seed, 1), &o);
     plan.property = "C11".into();
     plan.profile = "corrupt".into();
@@ -73,7 +74,7 @@ pub fn gen_corrupt(seed: u64) -> Plan {
         let boundary = [0u64, 1, 255, 256, g.block - 1, g.block, g.block + 1, 2 * g.block, 4 * g.block, file_len - unit - 1, file_len - unit, file_len, file_len + 1, 1 << 29, u32::MAX as u64, 1 << 40, u64::MAX];
         let (target, action, off, len, arg): (String, &str, u64, u64, u64) = match rng.below(25) {
             // a field of the entry header overwritten with a boundary value (8-byte slots of the metadata region, or unaligned)
-            20 | 21 => (format!("wal:{}", rng.below(3)), "setval", base + 2 + 8 * rng.below(10), 8, *rng.pick(&boundary)),
+            20 | 21 => (format!("wal:{}", rng.below(3)), "setval", base + 2 + 4 * rng.below(20), *rng.pick(&[4u64, 8]), *rng.pick(&boundary)),
             22 => (format!("wal:{}", rng.below(3)), "setval", base + 2 + rng.below(80), *rng.pick(&[4u64, 8]), *rng.pick(&boundary)),
             23 => (format!("wal:{}", rng.below(3)), "setval", base, 2, *rng.pick(&[0u64, 1, 64, 255, 256, 0xFFFF])),
             24 => (format!("wal:{}", rng.below(3)), "flip", base + 2 + rng.below(80), 0, rng.below(8)),
